@@ -103,11 +103,14 @@ def check_pair(ctx, src, tgt, radius, desc):
     src_shape = src.shape
     for vname, data, mask in _data_variants(ctx.rng, src_shape, n_src):
         for fill in ((3.0, np.float32(3.0), 101) if vname.startswith("1ch_big") else ((101 if vname.startswith("1ch") else -7), None)):
-            inp = {**inp0, "data": vname, "fill_value": fill}
+            # the statement does not depend on how the target is cut into segments: the brute-force oracle below is the same
+            seg = (1, 1, None, 2, 3, 5)[ctx.rng.randrange(6)]
+            inp = {**inp0, "data": vname, "fill_value": fill, "segments": seg}
+            ctx.count(f"segments.{seg}")
             try:
                 with warnings.catch_warnings():
                     warnings.simplefilter("ignore")
-                    res = kd_tree.resample_nearest(src, data, tgt, radius, epsilon=0, fill_value=fill, reduce_data=False, segments=1)
+                    res = kd_tree.resample_nearest(src, data, tgt, radius, epsilon=0, fill_value=fill, reduce_data=False, segments=seg)
             except Exception as e:  # noqa
                 ctx.fail("kd_tree.resample_nearest", f"raised {type(e).__name__}: {e}", inp, size=n_src + n_tgt)
                 continue
